@@ -184,7 +184,7 @@ def run_ord(params, prefix):
             await repo.close()
 
     x = dsched.run_one(lambda loop, s: go(), prefix, horizon=6000, want_env=True)
-    out = {'points': x.points, 'err': None, 'viol': [], 'order': hash(tuple(st.calls))}
+    out = {'points': x.points, 'err': None, 'viol': [], 'order': explore.canon_order(st.calls)}
     sig0 = {'part': 'read-orders', 'enc': params['enc']}
     if x.err is not None or x.exc is not None:
         out['err'] = None if x.err is None else ('hang' if isinstance(x.err, dsched.Hang) else 'capped' if isinstance(x.err, dsched.Horizon) else 'diverged')
